@@ -99,6 +99,12 @@ macro "c20_close" : tactic =>
 theorem core_fatal (v : Variant) {s s' : S} (h : fire v s .fatal = some s') : s'.core = s.core := by
   simp only [fire, Option.some.injEq] at h; subst h; rfl
 
+theorem core_giveUp (v : Variant) {s s' : S} (h : fire v s .giveUp = some s') : s'.core = s.core := by
+  simp only [fire] at h
+  split at h
+  · simp only [Option.some.injEq] at h; subst h; rfl
+  · cases h
+
 theorem inv_step_setup1_true {s s' : S} {ok : Bool} (hi : Inv s.core) (hpc : s.pc = .setup1 true) (h : stepRun s ok = some s') : Inv s'.core := by
   obtain ⟨h1, h2, h3, h4, h5, h6, h7, h8, h9, h10, h11, h12, h13, h14, h15, h16, h17, h18, h19⟩ := hi
   simp only [S.core] at h1 h2 h3 h4 h5 h6 h7 h8 h9 h10 h11 h12 h13 h14 h15 h16 h17 h18 h19
@@ -459,6 +465,7 @@ theorem inv_fire (v : Variant) {s s' : S} {l : Label} (hi : Inv s.core) (h : fir
   | close => rw [core_external v h (Or.inr (Or.inl rfl))]; exact hi
   | cancel => rw [core_external v h (Or.inr (Or.inr (Or.inl rfl)))]; exact hi
   | fatal => rw [core_fatal v h]; exact hi
+  | giveUp => rw [core_giveUp v h]; exact hi
   | post e => rw [core_external v h (Or.inr (Or.inr (Or.inr ⟨e, rfl⟩)))]; exact hi
   | begin =>
     simp only [fire] at h
@@ -539,6 +546,9 @@ theorem shut_fire {v : Variant} {s s' : S} {l : Label} (hp : s.pc.inShut = true 
   | fatal =>
     have := congrArg Core.pc (core_fatal v h); simp only [S.core] at this
     simp [this, hp, Label.isStep]
+  | giveUp =>
+    have := congrArg Core.pc (core_giveUp v h); simp only [S.core] at this
+    simp [this, hp, Label.isStep]
   | post e =>
     have := congrArg Core.pc (core_external v h (Or.inr (Or.inr (Or.inr ⟨e, rfl⟩)))); simp only [S.core] at this
     simp [this, hp, Label.isStep]
@@ -600,6 +610,11 @@ theorem notLost_fire {s s' : S} {l : Label} (hi : Inv s.core) (hn : NotLost s) (
     · cases h
   | cancel => simp only [fire, Option.some.injEq] at h; subst h; exact hn
   | fatal => simp only [fire, Option.some.injEq] at h; subst h; exact hn
+  | giveUp =>
+    simp only [fire] at h
+    split at h
+    · simp only [Option.some.injEq] at h; subst h; exact hn
+    · cases h
   | post e => cases e <;> simp only [fire, postEv, Option.some.injEq, reduceCtorEq] at h <;> first | (subst h; exact hn) | cases h
   | begin =>
     simp only [fire] at h
@@ -652,6 +667,11 @@ theorem wedged_stable {v : Variant} {s s' : S} {l : Label} (hpc : s.pc = .shut3)
     · cases h
   | cancel => simp only [fire, Option.some.injEq] at h; subst h; exact ⟨hpc, hf⟩
   | fatal => simp only [fire, Option.some.injEq] at h; subst h; exact ⟨hpc, Nat.lt_succ_of_lt hf⟩
+  | giveUp =>
+    simp only [fire] at h
+    split at h
+    · simp only [Option.some.injEq] at h; subst h; exact ⟨hpc, hf⟩
+    · cases h
   | post e => cases e <;> simp only [fire, postEv, Option.some.injEq, reduceCtorEq] at h <;> first | (subst h; exact ⟨hpc, hf⟩) | cases h
   | begin => simp [fire, hpc] at h
   | pick e => simp [fire, hpc] at h
